@@ -87,7 +87,10 @@ static void observe(parsec_data_collection_t *C, parsec_tiled_matrix_t *T, int r
         VASSERTM(o->off >= 0 && o->off + (long)C_MB * C_NB * ESZ <= (long)T->nb_local_tiles * C_MB * C_NB * ESZ, "tile bytes inside the local tile storage");
     } else {
         long e = o->off / ESZ, row0 = e % T->llm, col0 = e / T->llm;
-        VASSERTM(o->off >= 0 && o->off % ESZ == 0 && row0 + C_MB <= T->llm && col0 + C_NB <= T->lln, "tile rectangle inside the local llm x lln storage");
+        /* LAPACK storage is not padded: the last tile row / column of a matrix whose size is not a multiple of the
+         * tile size is clipped (at least one row / column of it is stored) */
+        int lastrow = ((m + C_I / C_MB) == (C_LM + C_MB - 1) / C_MB - 1), lastcol = ((n + C_J / C_NB) == (C_LN + C_NB - 1) / C_NB - 1);
+        VASSERTM(o->off >= 0 && o->off % ESZ == 0 && row0 + (lastrow ? 1 : C_MB) <= T->llm && col0 + (lastcol ? 1 : C_NB) <= T->lln, "tile rectangle inside the local llm x lln storage");
         VASSERTM(row0 % C_MB == 0 && col0 % C_NB == 0, "LAPACK storage: the tile starts on the mb x nb grid of the local storage (leading dimension llm)");
     }
 }
